@@ -396,7 +396,11 @@ def run_shard(sh):
         # the whole signal (a default) and one of its slices written by the same block, in either order
         stmts = [["=", whole, ["c", 0, None]], ["=", {"path": "zz_ov", "steps": [["s", a, b]], "lo": a, "w": b - a}, ["c", 1, None]]]
         if variant == 2: stmts.reverse()
-      cls["blocks"].append({"name": "zz_ovb", "kind": "comb", "stmts": stmts})
+      blk_ = {"name": "zz_ovb", "kind": "comb", "stmts": stmts}
+      if rng.random() < 0.5:
+        # a local name that begins with a python keyword of the block header ( def... ) at the start of a body line
+        blk_["emit_stmts"] = [["raw", rng.choice(["default_v = 1", "defer = 0", "define_x = 2", "deflt = 3"])]] + stmts
+      cls["blocks"].append(blk_)
       if rng.random() < 0.6:
         # a net reads some slice of it (inside, outside or across the slice written separately)
         c = rng.randrange(w - 1); e = rng.randrange(c + 1, w + 1)
